@@ -58,8 +58,6 @@ impl Exec for UnaryOperation {
     fn exec(&self, interpreter: &mut Interpreter) -> ExecResult {
         let var = self.instruction.exec(interpreter)?;
         Ok(match self.op {
-            UnaryOperator::Sum => sum::exec(var, &self.instruction.return_type())?,
-            UnaryOperator::Product => product::exec(var, &self.instruction.return_type())?,
             UnaryOperator::Not => not::exec(var),
             UnaryOperator::UnaryMinus => unary_minus::exec(var),
             UnaryOperator::Return => return Err(ExecStop::Return(var)),
@@ -67,7 +65,9 @@ impl Exec for UnaryOperation {
             UnaryOperator::FunctionCall => var.into_function().unwrap().exec(interpreter)?,
             UnaryOperator::Collect => collect::exec(var)?,
             UnaryOperator::Iter => iter::exec(var),
-            UnaryOperator::All
+            UnaryOperator::Sum
+            | UnaryOperator::Product
+            | UnaryOperator::All
             | UnaryOperator::Any
             | UnaryOperator::BitAnd
             | UnaryOperator::BitOr => unreachable!(),
@@ -93,15 +93,14 @@ impl ReturnType for UnaryOperation {
     fn return_type(&self) -> Type {
         let return_type = self.instruction.return_type();
         match self.op {
-            UnaryOperator::Sum | UnaryOperator::Product => {
-                return_type.iter_element().unwrap_or(Type::Never)
-            }
             UnaryOperator::Not | UnaryOperator::UnaryMinus => return_type,
             UnaryOperator::Indirection => indirection::return_type(return_type),
             UnaryOperator::FunctionCall => return_type.return_type().unwrap_or(Type::Never),
             UnaryOperator::Collect => collect::return_type(return_type),
             UnaryOperator::Iter => iter::return_type(return_type),
-            UnaryOperator::All
+            UnaryOperator::Sum
+            | UnaryOperator::Product
+            | UnaryOperator::All
             | UnaryOperator::Any
             | UnaryOperator::BitAnd
             | UnaryOperator::BitOr
